@@ -56,6 +56,9 @@ func init() {
 				if strings.HasPrefix(l, "end ") {
 					e = true
 				}
+				if strings.HasPrefix(l, "call ") {
+					s, e = true, true
+				}
 			}
 			return s && e
 		},
@@ -213,6 +216,7 @@ func c43Gen(g *Gen) {
 		}
 		g.Case(lines...)
 	}
+	c43GenE2E(g)
 	// malformed: lines before cfg
 	for i, n := 0, g.N(20, 100); i < n; i++ {
 		g.Case(Pick(r, []string{"start nil", "end 0 0 0", "endnil 0 0 0"}), c43Cfg(r), "start "+c43Meta(r), "end 0 1 1")
@@ -268,6 +272,10 @@ type c43Env struct {
 	spanOf   []int // dispatch -> index into spans, -1 when no span was started
 	metas    []map[string]string
 	infos    []vgirpc.DispatchInfo
+	// end-to-end family (c43_e2e.go)
+	transport string
+	srv       *vgirpc.Server
+	e2e       *c43E2E
 	finished map[int]bool
 	cntOK    int64
 	cntErr   int64
@@ -426,12 +434,18 @@ func c43Exec(c *Case) {
 			continue
 		}
 		if e == nil {
+			transport := ""
+			if f[0] == "e2e" && len(f) == 7 && (f[1] == "pipe" || f[1] == "http") {
+				// end-to-end family: the same hook, installed on a server that really serves
+				transport = f[1]
+				f = append([]string{"cfg"}, f[2:]...)
+			}
 			if f[0] != "cfg" || len(f) != 6 {
 				c.Out(l, "err:no-cfg")
 				continue
 			}
 			tracing, metrics, recexc := f[1] == "1", f[2] == "1", f[3] == "1"
-			e = &c43Env{c: c, tracing: tracing, metrics: metrics, finished: map[int]bool{}}
+			e = &c43Env{c: c, tracing: tracing, metrics: metrics, finished: map[int]bool{}, transport: transport}
 			var sampler sdktrace.Sampler
 			switch f[5] {
 			case "never":
@@ -459,17 +473,27 @@ func c43Exec(c *Case) {
 				cfg.Propagator, e.prop = propagation.NewCompositeTextMapPropagator(propagation.Baggage{}, propagation.TraceContext{}), true
 			}
 			srv := vgirpc.NewServer()
+			if transport != "" {
+				c43RegisterE2E(srv)
+			}
 			vgiotel.InstrumentServer(srv, cfg)
+			e.srv = srv
 			e.hook = srv.VerifC43DispatchHook()
 			if e.hook == nil {
 				c.Oracle("hook-not-installed", "InstrumentServer did not install a dispatch hook")
 				c.Out(l, "err:no-hook")
 				return
 			}
+			if transport != "" {
+				e.setupE2E()
+				c.Stat("e2e-" + transport)
+			}
 			c.Out(fmt.Sprintf("cfg %s %s %s %s", f[1], f[2], f[3], c43B(e.prop)), "ok")
 			continue
 		}
 		switch {
+		case f[0] == "call" && len(f) == 4 && e.transport != "":
+			e.call(l, f)
 		case f[0] == "start" && (len(f) == 2 || len(f) == 6):
 			meta, ok := c43ParseMeta(f[1])
 			if !ok {
